@@ -501,6 +501,7 @@ func init() {
 			run.Count("drop_objects", st.objects)
 			run.Count("drop_events", st.events)
 			run.Count("dropped_while_down_without_seek_time_no_event", st.seekZeroNoEvent)
+			run.Count("row_messages_fed_behind_the_drop_of_their_object", st.trailing)
 			for s, n := range st.shardCounts {
 				run.Count(fmt.Sprintf("objects_with_%d_shards", s), n)
 			}
@@ -524,6 +525,7 @@ func init() {
 			run.Floor("drop_events", run.Pick(60, 900))
 			run.Floor("delivery_orders", 6)
 			run.Floor("cases_addpartition_racing_registration", 20)
+			run.Floor("row_messages_fed_behind_the_drop_of_their_object", 10)
 			run.Floor("mode_4", 10)
 			run.Floor("mode_5", 10)
 		}}
